@@ -35,8 +35,8 @@ struct MoveOnly {
     }
 };
 
-enum Op { PUSH = 0, POP, UNBLOCK, REAP, DESTROY, NOPS };
-static const char *op_names[] = {"push", "pop", "unblock_pop", "reap", "destroy"};
+enum Op { PUSH = 0, POP, UNBLOCK, REAP, DESTROY, POPCB, NOPS };
+static const char *op_names[] = {"push", "pop", "unblock_pop", "reap", "destroy", "pop-by-callback-consumer"};
 static const char *ty_names[] = {"int", "moveonly", "void"};
 
 struct Model {
@@ -44,6 +44,7 @@ struct Model {
     std::deque<int> waiters;     // pop ids waiting, arrival order
     std::vector<int> pop_state;  // 0 pending, 1 value, 2 exception(unblock), 3 cancelled, 4 reaped
     std::vector<int> pop_value;
+    std::vector<bool> pop_cb;    // issued by the callback consumer (one re-used call_fn_future_awaiter, one pop at a time)
     int next_val = 1;
     bool destroyed = false;
     bool enabled(int op) const {
@@ -51,9 +52,14 @@ struct Model {
         int out = 0, reapable = 0;
         for (int s : pop_state) {
             out += s == 0;
-            reapable += (s >= 1 && s <= 3);
         }
+        for (size_t i = 0; i < pop_state.size(); i++) reapable += (pop_state[i] >= 1 && pop_state[i] <= 3 && !pop_cb[i]);
         if (op == POP) return out < 3;
+        if (op == POPCB) {
+            for (size_t i = 0; i < pop_state.size(); i++)
+                if (pop_cb[i] && pop_state[i] == 0) return false;  // its previous pop is still waiting
+            return out < 3;
+        }
         if (op == REAP) return reapable > 0;
         return true;
     }
@@ -72,6 +78,8 @@ struct Model {
                 return 0;
             }
             case POP:
+            case POPCB:
+                pop_cb.push_back(op == POPCB);
                 if (!items.empty()) {
                     pop_state.push_back(1);
                     pop_value.push_back(items.front());
@@ -91,7 +99,7 @@ struct Model {
             }
             case REAP:
                 for (size_t i = 0; i < pop_state.size(); i++)
-                    if (pop_state[i] >= 1 && pop_state[i] <= 3) {
+                    if (pop_state[i] >= 1 && pop_state[i] <= 3 && !pop_cb[i]) {
                         pop_state[i] = 4;
                         break;
                     }
@@ -136,6 +144,28 @@ static std::string describe(int ty, const std::vector<int> &seq) {
     return o.str();
 }
 
+// consumer that is not a coroutine: one call_fn_future_awaiter, re-used for every pop it issues
+template <typename T>
+struct CbConsumer {
+    std::vector<int> st, val;  // per completed pop, in completion order
+    cocls::suspend_point<void> done(cocls::future<T> &f) noexcept {
+        int s = 9, v = 0;
+        try {
+            v = Val<T>::read(f);
+            s = 1;
+        } catch (const TestError &) {
+            s = 2;
+        } catch (const cocls::await_canceled_exception &) {
+            s = 3;
+        } catch (...) {
+        }
+        seqx::NoCount nc;
+        st.push_back(s);
+        val.push_back(v);
+        return {};
+    }
+};
+
 template <typename T>
 static void run_case(seqx::Runner &R, int ty, const std::vector<int> &seq) {
     R.begin(describe(ty, seq));
@@ -145,14 +175,30 @@ static void run_case(seqx::Runner &R, int ty, const std::vector<int> &seq) {
         Model m;
         auto q = std::make_unique<cocls::queue<T>>();
         std::vector<std::unique_ptr<cocls::future<T>>> pops;
+        std::unique_ptr<CbConsumer<T>> cbc;
+        std::unique_ptr<cocls::call_fn_future_awaiter<&CbConsumer<T>::done>> cbaw;
+        {
+            seqx::NoCount nc;  // the consumer is harness equipment
+            cbc.reset(new CbConsumer<T>());
+            cbaw.reset(new cocls::call_fn_future_awaiter<&CbConsumer<T>::done>(*cbc));
+        }
+        std::vector<int> cb_index;  // model pop id -> index in the consumer's completion log (-1 not completed when issued)
         int next_val = 1;
         bool ok = true;
         auto compare = [&](size_t step) {
             for (size_t i = 0; i < pops.size(); i++) {
                 if (m.pop_state[i] == 4) continue;
-                bool rdy = pops[i]->ready();
                 int st = 0, v = 0;
-                if (rdy) {
+                if (m.pop_cb[i]) {
+                    // the k-th pop issued by the callback consumer is the k-th entry of its completion log (one at a time)
+                    size_t k = (size_t)cb_index[i];
+                    if (k < cbc->st.size()) {
+                        st = cbc->st[k];
+                        v = cbc->val[k];
+                    }
+                    if (cbc->st.size() > k + 1 && (size_t)cb_index.back() == k && i + 1 == pops.size())
+                        R.fail("q/callback-fired-twice", "after step %zu: the callback consumer was called %zu times for %zu pops", step, cbc->st.size(), k + 1);
+                } else if (pops[i]->ready()) {
                     try {
                         v = Val<T>::read(*pops[i]);
                         st = 1;
@@ -197,7 +243,18 @@ static void run_case(seqx::Runner &R, int ty, const std::vector<int> &seq) {
                     }
                     break;
                 }
-                case POP: pops.emplace_back(new cocls::future<T>(q->pop())); break;
+                case POP:
+                    pops.emplace_back(new cocls::future<T>(q->pop()));
+                    cb_index.push_back(-1);
+                    break;
+                case POPCB: {
+                    int k = 0;
+                    for (size_t j = 0; j < m.pop_cb.size() - 1; j++) k += m.pop_cb[j];
+                    pops.emplace_back(nullptr);
+                    cb_index.push_back(k);
+                    *cbaw << [&] { return q->pop(); };
+                    break;
+                }
                 case UNBLOCK: {
                     bool r = q->unblock_pop(std::make_exception_ptr(TestError(5)));
                     if ((int)r != exp) {
@@ -219,6 +276,14 @@ static void run_case(seqx::Runner &R, int ty, const std::vector<int> &seq) {
             R.state(key);
         }
         q.reset();
+        {
+            size_t issued = 0;
+            for (bool b : m.pop_cb) issued += b;
+            if (ok && cbc->st.size() != issued) R.fail("q/callback-count", "the callback consumer issued %zu pops and was called %zu times", issued, cbc->st.size());
+            seqx::NoCount nc;
+            cbaw.reset();
+            cbc.reset();
+        }
         for (size_t k = 0; k < pops.size(); k++)
             if (pops[k] && !pops[k]->ready()) {
                 if (ok) R.fail("q/pop-hangs-after-destroy", "pop #%zu still pending after the queue was destroyed", k);
